@@ -6,6 +6,7 @@ from props import qcommon as qc
 
 class Grammar(qc.FullGrammar):
     allow_main = True
+    barrier_block_objects = True
     allow_retarget = True
     pool_template = True
     thread_kinds = qc.FullGrammar.thread_kinds + [("retarget", 1)]
